@@ -299,6 +299,31 @@ NON_CARRYING = ("PartialEq::eq", "PartialEq::ne", "str::<impl str>::is_empty", "
                 "NsReader::<R>::read_to_end", "str::<impl str>::starts_with", "str::<impl str>::ends_with", "str::<impl str>::contains")
 
 
+def _fromstr_sanitises(fx, call, sanit, wr, _cache={}):
+    """`text.parse::<F>()` / `F::from_str(text)` where F's FromStr impl is workspace code that hands its input to its own token sinks
+    only through the sanitiser."""
+    target = (call.gargs or [None])[0] if call.is_fn("str::<impl str>::parse", "core::str::<impl str>::parse") else None
+    names = []
+    if target:
+        names.append("<%s as std::str::FromStr>::from_str" % target)
+    if call.rdef:
+        names.append(call.rdef)
+    for n in names:
+        b = fx.mir.get(n)
+        if b is None or b.crate not in CRATES:
+            continue
+        key = (n, sanit)
+        if key not in _cache:
+            def through(x):
+                return not (x.is_fn(*sanit) or x.is_fn(*NON_CARRYING) or x.rdef in wr or x.defn in wr)
+            t = b.forward_taint([1], through_call=through)
+            raw = [x for x in b.calls() if not x.macro and x.is_fn(*TOKEN_SINKS) and any(F.op_base(a) in t for a in x.args)]
+            _cache[key] = bool([x for x in b.calls() if x.is_fn(*sanit)]) and not raw
+        if _cache[key]:
+            return True
+    return False
+
+
 def sanitiser_wrappers(fx, sanit):
     """Workspace functions that are wrappers of a sanitiser: every value flowing from a parameter to the return place passes through
     a call in `sanit` (with `sanit` as a barrier the return place is no longer tainted by any parameter), and the sanitiser is called."""
@@ -348,6 +373,9 @@ def text_uses(fx):
                     if x.bb == c.bb or x.macro:
                         continue
                     if x.is_fn(*TOKEN_SINKS) and any(F.op_base(a) in t for a in x.args):
+                        if x.is_fn("str::<impl str>::parse", "core::str::<impl str>::parse", "FromStr::from_str") and \
+                                _fromstr_sanitises(fx, x, sanit, wr):
+                            continue      # the target type's own FromStr (workspace code) applies the sanitiser to its input first
                         sinks.append((T.short(x.name(), 2), x.loc()))
                 for bi, bl in enumerate(b.blocks):
                     for s in bl["stmts"]:
